@@ -90,6 +90,44 @@ theorem Orth.det_sq {R : M3 K} (h : Orth R) : R.det * R.det = 1 := by
   rw [h, det_one, det_transpose] at this
   exact this.symm
 
+/-- adjugate (transpose of the cofactor matrix) -/
+def M3.adj (R : M3 K) : M3 K :=
+  ⟨R.bb * R.cc - R.bc * R.cb, R.ac * R.cb - R.ab * R.cc, R.ab * R.bc - R.ac * R.bb,
+   R.bc * R.ca - R.ba * R.cc, R.aa * R.cc - R.ac * R.ca, R.ac * R.ba - R.aa * R.bc,
+   R.ba * R.cb - R.bb * R.ca, R.ab * R.ca - R.aa * R.cb, R.aa * R.bb - R.ab * R.ba⟩
+
+def M3.smul (c : K) (A : M3 K) : M3 K :=
+  ⟨c * A.aa, c * A.ab, c * A.ac, c * A.ba, c * A.bb, c * A.bc, c * A.ca, c * A.cb, c * A.cc⟩
+
+theorem adj_mul (R : M3 K) : R.adj.mul R = M3.smul R.det M3.one := by
+  simp only [M3.adj, M3.mul, M3.smul, M3.one, M3.det, det3, V3.cross, V3.dot, M3.mk.injEq]
+  refine ⟨?_, ?_, ?_, ?_, ?_, ?_, ?_, ?_, ?_⟩ <;> ring
+
+theorem smul_mul (c : K) (A B : M3 K) : (M3.smul c A).mul B = M3.smul c (A.mul B) := by
+  simp only [M3.mul, M3.smul, M3.mk.injEq]
+  refine ⟨?_, ?_, ?_, ?_, ?_, ?_, ?_, ?_, ?_⟩ <;> ring
+
+theorem smul_smul (c d : K) (A : M3 K) : M3.smul c (M3.smul d A) = M3.smul (c * d) A := by
+  simp only [M3.smul, M3.mk.injEq]
+  refine ⟨?_, ?_, ?_, ?_, ?_, ?_, ?_, ?_, ?_⟩ <;> ring
+
+theorem one_smul (A : M3 K) : M3.smul 1 A = A := by
+  cases A; simp only [M3.smul, M3.mk.injEq]
+  refine ⟨?_, ?_, ?_, ?_, ?_, ?_, ?_, ?_, ?_⟩ <;> ring
+
+/-- Over a commutative ring, `R·Rᵀ = 1` implies `Rᵀ·R = 1`. -/
+theorem Orth.transpose {R : M3 K} (h : Orth R) : Orth R.transpose := by
+  unfold Orth at *
+  rw [transpose_transpose]
+  have e1 : R.adj = M3.smul R.det R.transpose := by
+    calc R.adj = R.adj.mul M3.one := (mul_one' _).symm
+      _ = (R.adj.mul R).mul R.transpose := by rw [mul_assoc', h]
+      _ = M3.smul R.det R.transpose := by rw [adj_mul, smul_mul, one_mul']
+  have e2 : M3.smul R.det (R.transpose.mul R) = M3.smul R.det M3.one := by
+    rw [← smul_mul, ← e1, adj_mul]
+  have e3 := congrArg (M3.smul R.det) e2
+  rw [smul_smul, smul_smul, Orth.det_sq h, one_smul, one_smul] at e3
+  exact e3
 /-- Affine maps send planes to planes: the plane equation is multiplied by `det R`. -/
 theorem planeEq3_place (P : Placement K) (p0 p1 p2 q : V3 K) :
     planeEq3 (place P p0) (place P p1) (place P p2) (place P q) = P.R.det * planeEq3 p0 p1 p2 q := by
